@@ -216,4 +216,18 @@ def evaluate(c):
                     'a medium (%g, %g, height %g) beyond every reflection point (%s boundary at %.9g, reflections up to %.9g) changes the pattern' % (eps, sig, h, b, xfar, hi))
                 canon.append('%s|v%d|far|%s|%g' % (und, vi, b, eps))
                 nontriv.append(True)
+            # (4b) the same for a ground that already has a lowered second medium with reflection points in it: the appended
+            # medium (default height 0 / lower / higher) must not touch the media in front of it
+            midb = mid_l if b == 'linear' else max(mid_c, 0.01)
+            base2 = dict(media=[[13., 5e-3, 0., midb], [4., 1e-3, -2.]], boundary=b)
+            _, gb2 = pattern(cs, base2)
+            ev += 1
+            for eps, sig, h in ((3., 1e-4, 0.), (80., 4., -5.), (13., 5e-3, -1.)):
+                xfar = max(hi + 0.5, midb + 0.5)
+                _, g5 = pattern(cs, dict(media=[[13., 5e-3, 0., midb], [4., 1e-3, -2., xfar], [eps, sig, h]], boundary=b))
+                ev += 1
+                chk('FAR-BOUNDARY-3rd-' + b, float(np.abs(g5 - gb2)[gb2 > -200].max()), 1e-9,
+                    'a third medium (%g, %g, height %g) beyond every reflection point (%s boundary at %.6g, reflections up to %.6g) changes the pattern of a two-media ground' % (eps, sig, h, b, xfar, hi))
+                canon.append('%s|v%d|far3|%s|%g|%g' % (und, vi, b, eps, h))
+                nontriv.append(True)
     return dict(viol=viol[:8], canon=canon, nontriv=nontriv, trans=ev, traces=len(canon), evals=ev, dev=worst, outcome='gnd=%d' % len(gnd), note=wn)
